@@ -535,7 +535,19 @@ func (fr *Frame) inline(f *ssa.Function, cl *closureVal, cc *ssa.CallCommon, arg
 		}
 	}
 	if len(f.FreeVars) > 0 {
-		if cl == nil || cl.parent == nil {
+		if cl != nil && cl.parent == nil && cl.sibling {
+			for i, fv := range f.FreeVars {
+				if a, ok := cl.bindings[i].(*ssa.Alloc); ok {
+					child.vals[fv] = fr.siblingCell(a)
+					if child.fvAlloc == nil {
+						child.fvAlloc = map[*ssa.FreeVar]*ssa.Alloc{}
+					}
+					child.fvAlloc[fv] = a
+				} else {
+					child.vals[fv] = fr.freshOfType("fv_"+fv.Name(), fv.Type())
+				}
+			}
+		} else if cl == nil || cl.parent == nil {
 			// cannot bind free variables: fall back
 			for _, fv := range f.FreeVars {
 				child.vals[fv] = fr.freshOfType("fv_"+fv.Name(), fv.Type())
@@ -543,6 +555,14 @@ func (fr *Frame) inline(f *ssa.Function, cl *closureVal, cc *ssa.CallCommon, arg
 		} else {
 			for i, fv := range f.FreeVars {
 				b := cl.bindings[i]
+				if pfv, ok := b.(*ssa.FreeVar); ok {
+					if a := cl.parent.capturedAlloc(pfv); a != nil {
+						if child.fvAlloc == nil {
+							child.fvAlloc = map[*ssa.FreeVar]*ssa.Alloc{}
+						}
+						child.fvAlloc[fv] = a
+					}
+				}
 				child.vals[fv] = cl.parent.val(b)
 				if l, ok := cl.parent.lv[b]; ok {
 					child.lv[fv] = l
@@ -665,6 +685,11 @@ func (fr *Frame) applyContract(fcx *FuncContract, f *ssa.Function, sig *types.Si
 		}
 	}
 	for _, en := range fcx.Ensures {
+		if en.AtReturn >= 0 {
+			// a postcondition of one return statement may speak about the callee's locals;
+			// it is an obligation of the callee, not part of its interface
+			continue
+		}
 		t, err := e.Bool(en.E)
 		if err != nil {
 			fr.bindingFailure(en, err)
@@ -1472,6 +1497,18 @@ func runTop(c *Ctx, fn *ssa.Function, fc *FuncContract) (err error) {
 			c.assert("(not (= " + n + " null))")
 			fr.nonNil[fv] = true
 			fr.assumeAlive(n, fv.Type())
+			// the captured variable holds a well-typed value at entry
+			if pt, ok := fv.Type().Underlying().(*types.Pointer); ok {
+				if _, isStruct := structOf(pt.Elem()); !isStruct {
+					if _, isArr := pt.Elem().Underlying().(*types.Array); !isArr {
+						cur := fr.load(fr.locOf(fv))
+						for _, f := range c.typeFacts(cur, pt.Elem(), 0) {
+							c.assert(f)
+						}
+						fr.assumeAlive(cur, pt.Elem())
+					}
+				}
+			}
 		} else {
 			for _, f := range c.typeFacts(n, fv.Type(), 0) {
 				c.assert(f)
